@@ -1,5 +1,14 @@
 #!/bin/sh
 # usage: tools/gen1.sh <unit> [verus args]  -- extract one unit into build/<unit>.rs and run verus on it (development helper)
 u=$1; shift
-/verif/tools/vx/target/release/vx gen --repo /repo --unit /verif/units/$u --out /verif/build/$u.rs --map /verif/build/$u.map.json || exit 2
+gen=$(python3 - "$u" <<'PY'
+import sys; sys.path.insert(0,'/verif/lib')
+import runner
+un=runner.load_units()[sys.argv[1]]
+d=runner.generated_dir_for(un,'/repo','/verif/build/w')
+print(d or '')
+PY
+)
+garg=""; [ -n "$gen" ] && garg="--generated $gen"
+/verif/tools/vx/target/release/vx gen --repo /repo --unit /verif/units/$u --out /verif/build/$u.rs --map /verif/build/$u.map.json $garg || exit 2
 cd /verif/build && verus --crate-type=lib $u.rs --multiple-errors 10 "$@" 2>&1 | grep -v "^note: \|^  *= note" 
